@@ -21,6 +21,11 @@ CLAIMED = {
          GEN_NOTE, "Coq reflection of decidable checks on emitted equations + implementation-only scan", "DESIGN.md section 6 C05"),
  'C07': ("Coq theorems over ALL send/receive histories of a model of ForexTransations (valued net transactions are zero, paired flows leave the numeraire position unchanged, receiver credited amount*(sender rate/receiver rate)), tied to external.py by a correspondence on the accumulated term lists; plus the verified emitted-system checker for valued-zero / numeraire-zero / cross-rate identities on every generated multi-currency program (gifts, imports, gold), and refusal without ExternalSector tested on the implementation.",
          GEN_NOTE + " Hand-written model coq/Gen/Fx.v validated by correspondence each run.", "Coq proof by induction over operation histories + verified checker on emitted equations", "DESIGN.md section 6 C07"),
+ 'C08': ("Soundness theorem of the verified system-equivalence checker (accepted systems have exactly the same solution histories) evaluated in the kernel on the systems emitted by the same program under random dependency-respecting declaration orders; plus a Coq lemma for all term sequences that ledger accumulations are order-independent; both builds are also solved and compared by the oracle.",
+         GEN_NOTE, "Coq-verified equivalence checker on pairs of emitted systems + proof of accumulation commutativity", "DESIGN.md section 6 C08"),
+ 'C03': ("Coq theorems for ALL parsed systems about a model of EquationReduction (FindExactMatches/MoveDecorative loop): termination, variables preserved as a permutation, same real solution set for the reduced block plus decoration, acyclic decoration order; model tied to equation_parser.py by an AST-level correspondence on random alias-rich blocks; oracle compares reduced and unreduced solves (exactly at k=0).",
+         "Trusts: Coq kernel+vm_compute; stdlib Reals axioms + functional_extensionality_dep in the solution-set theorems; hand-written model coq/Reduce/Reduce.v validated by correspondence each run; Python ast as the reading of right-hand sides; the float iteration itself is C02's subject.",
+         "Coq proof by invariant over the substitution loop + correspondence check", "DESIGN.md section 6 C03"),
 }
 def chk(pid):
     text, note, tech, ref = CLAIMED[pid]
